@@ -450,7 +450,7 @@ func Run(dir, tier string, seed int64) error {
 			}
 		}
 		// the same attribute queries against an SP without certificates and one with an EC certificate
-		for _, certs := range [][]idp.CertEntry{nil, {{Use: "signing", Text: idp.ECCertB64()}}, {{Use: "", Text: "bm90IGEgY2VydA=="}}} {
+		for _, certs := range [][]idp.CertEntry{nil, {{Use: "signing", Text: spKey.CertB64()}}, {{Use: "signing", Text: idp.ECCertB64()}}, {{Use: "signing", Text: idp.Ed25519CertB64()}}, {{Use: "", Text: "bm90IGEgY2VydA=="}}} {
 			st.ClearSPs()
 			m := sso.BaseSP(nil, false)
 			m.Certs = certs
@@ -464,7 +464,7 @@ func Run(dir, tier string, seed int64) error {
 			}
 			// ----- SigAlg x key type on the Redirect binding (SSO and logout)
 			for _, alg := range sigAlgs {
-				for _, sig := range []string{"Zm9yZ2Vk", "", "!!", base64.StdEncoding.EncodeToString(make([]byte, 256)), base64.StdEncoding.EncodeToString(make([]byte, 40))} {
+				for _, sig := range sigValues() {
 					for _, want := range []string{"false", "true"} {
 						conf := idp.DefaultConf()
 						conf.IDPConfig.WantAuthRequestsSigned = want
@@ -576,8 +576,34 @@ func Run(dir, tier string, seed int64) error {
 		}
 	}
 
-	rule := "every deletion / duplication / emptying of each element and every deletion / emptying of each attribute of a full AuthnRequest (unsigned and enveloped-signed; POST and Redirect; signing required and not), LogoutRequest (POST and Redirect), SOAP AttributeQuery (with and without ds:Signature) and SP metadata document (7 certificate variants), applied singly and in pairs (quick: all singles and a sample of pairs per document; thorough: all pairs), plus byte-level mutations of each; every SigAlg URI (and none / junk) x {RSA, EC, undecodable, no} registered certificate x 5 signature values x signing required or not; every route x 6 methods x 8 parameter shapes; every storage fault (operation x kind x 1st/2nd call x metadata signing) on every endpoint. A recovered panic is a failure. The SSO requests additionally go through the Coq model (whose Panicked outcome is proved unreachable) and must agree with it. distinct = (class, status/outcome)."
+	rule := "every deletion / duplication / emptying of each element and every deletion / emptying of each attribute of a full AuthnRequest (unsigned and enveloped-signed; POST and Redirect; signing required and not), LogoutRequest (POST and Redirect), SOAP AttributeQuery (with and without ds:Signature) and SP metadata document (7 certificate variants), applied singly and in pairs (quick: all singles and a sample of pairs per document; thorough: all pairs), plus byte-level mutations of each; every SigAlg URI (and none / junk) x {RSA, EC, Ed25519, undecodable, no} registered certificate x 12 signature values (junk, empty, undecodable, RSA-sized, r||s-sized, well-formed and degenerate DER (r, s) sequences) x signing required or not; every route x 6 methods x 8 parameter shapes; every storage fault (operation x kind x 1st/2nd call x metadata signing) on every endpoint. A recovered panic is a failure. The SSO requests additionally go through the Coq model (whose Panicked outcome is proved unreachable) and must agree with it. distinct = (class, status/outcome)."
 	return sso.RunWith("C09", dir, tier, seed, scenarios, rule, extra, oracle)
+}
+
+// sigValues: junk, empty, undecodable, raw values of RSA / (r||s) sizes, and well-formed DER SEQUENCE{INTEGER r, INTEGER s}
+// values (what DSA / ECDSA verification parses before it looks at the key)
+func sigValues() []string {
+	der := func(r, s []byte) string {
+		enc := func(b []byte) []byte {
+			if b[0]&0x80 != 0 {
+				b = append([]byte{0}, b...)
+			}
+			return append([]byte{2, byte(len(b))}, b...)
+		}
+		body := append(enc(r), enc(s)...)
+		return base64.StdEncoding.EncodeToString(append([]byte{0x30, byte(len(body))}, body...))
+	}
+	big := bytesOf(20, 0x7f)
+	return []string{"Zm9yZ2Vk", "", "!!", base64.StdEncoding.EncodeToString(make([]byte, 256)), base64.StdEncoding.EncodeToString(make([]byte, 40)), base64.StdEncoding.EncodeToString(bytesOf(64, 1)),
+		der([]byte{1}, []byte{1}), der(big, big), der(bytesOf(32, 0x11), bytesOf(32, 0x22)), der([]byte{0}, []byte{0}), "MAA=", "MAYCAQECAQECAQE="}
+}
+
+func bytesOf(n int, v byte) []byte {
+	b := make([]byte, n)
+	for i := range b {
+		b[i] = v
+	}
+	return b
 }
 
 func metaConf() *provider.MetadataConfig {
